@@ -151,6 +151,12 @@ def run(ctx):
         pick = rng.sample(seqs, min(per_kind, len(seqs)))
         for i, sq in enumerate(pick):
             scripts.append(to_script(rng, kinds, sq, PREFIXES[i % len(PREFIXES)]))
+    # corners that every member is held to in EVERY run (not left to the sample): binds and traffic after Close, a second Close
+    for kinds in targets:
+        for sq in (["close", "bindw", "close"], ["close", "bindr", "cr", "close"], ["close", "bindl", "tl", "close"],
+                   ["close", "bindm", "tm", "close"], ["bindw", "close", "bindw", "wait", "close"], ["bindw", "bindw", "wait", "close"],
+                   ["bindw", "bindm", "close", "tm", "unbindm", "close"], ["bindw", "bindl", "close", "tl", "unbindl", "close"]):
+            scripts.append(to_script(rng, kinds, sq, []))
     # a second PLI-enabled stream bound before the loop exists blocks (known finding); Close must still release it and return
     for kinds in (["pli"], ["pli", "nackgen", "rrecv"], ["stats", "pli"]):
         for sq in (["bindm", "bindm", "close"], ["bindm", "bindm", "bindw", "wait", "close"], ["bindm", "bindm", "bindr", "close"]):
